@@ -214,6 +214,15 @@ def discharged(F, f, src, kind, deref, var):
         import re as _re
         node_t, idx_t = render(src['c'][0]), render(src['c'][1])
         cnt = 'nonCommentChildCount' if kind == 'nonCommentChildNode' else 'mathmlChildCount'
+        # ... or by one of the validator's arity helpers on the same node (they return true only for that many MathML children), or by the loop bound `i < count(node)`
+        if kind == 'mathmlChildNode':
+            mins = {'hasOneMathmlChild': 1, 'hasTwoMathmlChildren': 2, 'hasAtLeastOneMathmlChild': 1, 'hasAtLeastTwoMathmlChildren': 2, 'hasOneOrTwoMathmlChildren': 1}
+            for c_, t_ in rc:
+                m_ = _re.match(r'^(has\w+Mathml(?:Child|Children))\(%s[,)]' % _re.escape(node_t), c_)
+                if m_ and t_ and m_.group(1) in mins and idx_t.isdigit() and int(idx_t) < mins[m_.group(1)]:
+                    return 'under %s(%s, ..)' % (m_.group(1), node_t)
+                if t_ and c_ == '%s < %s(%s)' % (idx_t, cnt, node_t):
+                    return 'under %s' % c_
         if idx_t.isdigit():
             for c_, t_ in rc:
                 m_ = _re.match(r'^%s\(%s\) (==|!=|>|>=) (\d+)$' % (cnt, _re.escape(node_t)), c_)
